@@ -166,6 +166,7 @@ def work_net(item):
     tj, style, seed, timeout_ms = item[:4]
     hist = item[4] if len(item) > 4 else "fresh"
     builder = netcheck.history_builders()[hist]
+    runs.set_default_history(hist)
     topo = T_.Topo.from_json(tj)
     rng = random.Random(seed)
     acc = netcheck.Acc(f"{topo.name}[{hist}]")
@@ -177,7 +178,7 @@ def work_net(item):
     numeric = netcheck.casadi_numeric_for(topo)
     try:
         encs = netcheck.numpy_encodings(topo, style, None, D, builder=builder)
-        for st in ("SX", "MX"):
+        for st in (() if hist == "same-names" else ("SX", "MX")):  # the CasADi encodings bind arguments by name
             e = netcheck.casadi_encoding(topo, st, numeric, more_out=True, builder=builder)
             e.extra["numeric"] = numeric
             encs.append(e)
@@ -278,7 +279,7 @@ def main():
         items.append(("net", t.to_json(), ("array", "scalar")[k % 2], args.seed + k, timeout))
         if t.name.startswith("k"):
             hs = ["decoy-links-replaced", "reads-interleaved", "decoy-attachments-replaced"]
-            for h in (hs if args.thorough else [hs[k % 3]]):
+            for h in (hs if args.thorough else [hs[k % 3]]) + ["same-names"]:
                 items.append(("net", t.to_json(), ("array", "scalar")[(k + 1) % 2], args.seed + k, timeout, h))
     if args.only:
         items = [it for it in items if args.only in str(it[1])]
